@@ -134,6 +134,16 @@ CHECKS = {
             'reported. Sampling plus small exhaustive enumeration, not proof.',
             'References as in C02/C04; illegal declarations after a formulation may alternatively reproduce the from-scratch result.',
             'DESIGN.md section 4 / C13'),
+    'C12': ('property-based testing against a-priori known answers: variables pinned by equalities, LDR coefficients pinned by robust '
+            'equalities on a full-dimensional set, dro event-wise decisions whose per-event value is a known maximum over scenario data; '
+            'NumPy evaluation of every queried expression',
+            'Generated-input search over variable ranks and index queries, dependency masks declared in random adapt() orders, scenario '
+            'labelings (int/str/reversed) and partitions from random adapt() sequences, affine / bi-affine (with assigned '
+            'realisations) / convex expressions with multipliers and offsets, min and max. Wrong numbers, wrong shapes, wrong labels '
+            'and NaN patterns that differ from the declared mask are violations. Sampling, not proof.',
+            'Expressions whose evaluation RSOME does not support (raises) are counted, not failed; assign() on slices of random '
+            'variables and E(...) evaluation are outside the generated domain.',
+            'DESIGN.md section 4 / C12'),
 }
 
 NOT_YET = 'check not built yet in this round (see DESIGN.md section 4 for the planned generator and oracle)'
